@@ -1,0 +1,69 @@
+//go:build verif
+
+package fingerproxy
+
+import (
+	"context"
+	"crypto/tls"
+	"flag"
+	"io"
+	"sync"
+
+	"github.com/prometheus/client_golang/prometheus"
+	"github.com/wi1dcard/fingerproxy/pkg/certwatcher"
+	"github.com/wi1dcard/fingerproxy/pkg/proxyserver"
+)
+
+// Entry point for the verification harness (/verif): builds the proxy server
+// through the same unexported wiring that Run uses (flags -> handler -> server),
+// without listening, so that in-process checks exercise the real flag plumbing.
+// Compiled only with the "verif" build tag.
+
+var verifMu sync.Mutex
+
+// VerifApp is what VerifNewApp wires up.
+type VerifApp struct {
+	Server      *proxyserver.Server
+	Registry    *prometheus.Registry
+	CertWatcher *certwatcher.CertWatcher // nil when a tls.Config was supplied
+	TLSConfig   *tls.Config
+}
+
+// VerifNewApp parses args as the fingerproxy command line and composes the
+// server exactly like Run. If tlsConfig is nil the certificate watcher is
+// created from -cert-filename / -certkey-filename and started.
+func VerifNewApp(ctx context.Context, args []string, tlsConfig *tls.Config) (*VerifApp, error) {
+	verifMu.Lock()
+	defer verifMu.Unlock()
+
+	flag.CommandLine = flag.NewFlagSet("fingerproxy", flag.ContinueOnError)
+	flag.CommandLine.SetOutput(io.Discard)
+	PrometheusRegistry = prometheus.NewRegistry()
+
+	initFlags()
+	if err := flag.CommandLine.Parse(args); err != nil {
+		return nil, err
+	}
+	initFingerprint()
+
+	app := &VerifApp{Registry: PrometheusRegistry}
+	if tlsConfig == nil {
+		app.CertWatcher = initCertWatcher()
+		tlsConfig = defaultTLSConfig(app.CertWatcher)
+		go app.CertWatcher.Start(ctx)
+	}
+	app.TLSConfig = tlsConfig
+
+	app.Server = defaultProxyServer(
+		ctx,
+		defaultReverseProxyHTTPHandler(
+			parseForwardURL(),
+			GetHeaderInjectors(),
+		),
+		tlsConfig,
+	)
+	return app, nil
+}
+
+// VerifDefaultTLSConfig exposes defaultTLSConfig (the TLS parameters Run uses).
+func VerifDefaultTLSConfig(cw *certwatcher.CertWatcher) *tls.Config { return defaultTLSConfig(cw) }
